@@ -174,3 +174,37 @@ func VerifC19Short() {
 	}
 	nd.Reach("C19.short")
 }
+
+// VerifC19Include: with custom delimiters the included templates are written with them too (from
+// the cache and from disk), and render as their default spelling does on a default engine.
+func VerifC19Include() {
+	q := c19Quads[1+nd.Choice(len(c19Quads)-1)]
+	inc := []string{"I{{ x }}{% if x %}T{% endif %}", "plain text only", "{% raw %}{{ r }}{% endraw %}{{ x | plus: 1 }}", "{{ x }}"}[nd.Choice(4)]
+	main := "A{% include 'inc.html' %}B{{ x }}"
+	b := Bindings{"x": nd.IntIn(0, 9)}
+	root := nd.TempRoot()
+	def, cus := NewEngine(), NewEngine().Delims(q[0], q[1], q[2], q[3])
+	onDisk := nd.Bool()
+	if onDisk {
+		nd.SetFile(root+"/d/inc.html", inc, 0)
+		nd.SetFile(root+"/c/inc.html", c19Respell(inc, q), 0)
+	} else {
+		_, e1 := def.ParseTemplateAndCache([]byte(inc), root+"/d/inc.html", 1)
+		_, e2 := cus.ParseTemplateAndCache([]byte(c19Respell(inc, q)), root+"/c/inc.html", 1)
+		nd.Assert(e1 == nil && e2 == nil, "included-sources-parse")
+	}
+	t1, p1 := def.ParseTemplateLocation([]byte(main), root+"/d/main.html", 1)
+	t2, p2 := cus.ParseTemplateLocation([]byte(c19Respell(main, q)), root+"/c/main.html", 1)
+	nd.Assert(p1 == nil && p2 == nil, "includers-parse")
+	if p1 != nil || p2 != nil {
+		return
+	}
+	o1, r1 := t1.RenderString(b)
+	o2, r2 := t2.RenderString(b)
+	back := o2
+	for i, d := range []string{"{{", "}}", "{%", "%}"} {
+		back = strings.ReplaceAll(back, q[i], d)
+	}
+	nd.Assert(r1 == nil && r2 == nil && o1 == back, "included-template-uses-the-engines-delimiters")
+	nd.Reach("C19.include")
+}
